@@ -43,6 +43,7 @@ type TravStep struct {
 	Attr string  `json:"attr,omitempty"`
 	Idx  *int    `json:"idx,omitempty"`
 	Key  *string `json:"key,omitempty"`
+	Num  *string `json:"num,omitempty"` // numeric index key given as number text (see cfggen.NumberOf)
 }
 
 type Edit struct {
@@ -99,7 +100,7 @@ func genEdit(t *rapid.T) Edit {
 				e.Type = cfggen.Type{K: "set", E: &el}
 			}
 		}
-		e.Val = cfggen.GenVal(t, e.Type)
+		e.Val = cfggen.WidenNumbers(t, cfggen.GenVal(t, e.Type))
 		if e.Type.K == "string" && rapid.IntRange(0, 3).Draw(t, "rawstring") == 0 {
 			e.Val = cfggen.Str(rapid.StringN(0, 6, 24).Draw(t, "string"))
 		}
@@ -107,7 +108,10 @@ func genEdit(t *rapid.T) Edit {
 		e.Root = rapid.SampledFrom([]string{"var", "local", "a-b", "é"}).Draw(t, "root")
 		n := rapid.IntRange(0, 3).Draw(t, "nsteps")
 		for i := 0; i < n; i++ {
-			switch rapid.IntRange(0, 2).Draw(t, "stepkind") {
+			switch rapid.IntRange(0, 3).Draw(t, "stepkind") {
+			case 3:
+				n := cfggen.GenVal(t, cfggen.Type{K: "number"}).S
+				e.Steps = append(e.Steps, TravStep{Num: &n})
 			case 0:
 				e.Steps = append(e.Steps, TravStep{Attr: rapid.SampledFrom([]string{"a", "foo", "with-dash", "é"}).Draw(t, "attr")})
 			case 1:
@@ -340,6 +344,8 @@ func editTraversal(e *Edit) hcl.Traversal {
 	tr := hcl.Traversal{hcl.TraverseRoot{Name: e.Root}}
 	for _, s := range e.Steps {
 		switch {
+		case s.Num != nil:
+			tr = append(tr, hcl.TraverseIndex{Key: cfggen.NumberOf(*s.Num)})
 		case s.Idx != nil:
 			tr = append(tr, hcl.TraverseIndex{Key: cty.NumberIntVal(int64(*s.Idx))})
 		case s.Key != nil:
@@ -806,6 +812,20 @@ func classifyB(c CaseB) core.Class {
 	}
 	ops := map[string]bool{}
 	deep := false
+	nums := map[string]bool{}
+	for _, e := range c.Edits {
+		if e.Op == "set-value" {
+			cfggen.NumClasses(e.Val, false, nums)
+		}
+		for _, st := range e.Steps {
+			if st.Num != nil {
+				nums["num-index-key:"+cfggen.NumClass(*st.Num)] = true
+			}
+		}
+	}
+	for k := range nums {
+		cl.Labels = append(cl.Labels, k)
+	}
 	for _, e := range c.Edits {
 		cl.Labels = append(cl.Labels, "op:"+e.Op)
 		ops[e.Op] = true
@@ -839,7 +859,7 @@ func classifyB(c CaseB) core.Class {
 func TestC20b(t *testing.T) {
 	core.Run(t, core.Spec[CaseB]{
 		Property: "C20", Sub: "b",
-		Rule: "a generated source file (as in C20a) and 1-5 edits, each on the root body or a nested body reached through 0-2 block indices: SetAttributeValue (primitive/list/map/set/any values, arbitrary Unicode strings), SetAttributeTraversal, SetAttributeRaw, RemoveAttribute (existing or missing), AppendNewBlock (0-2 labels), RemoveBlock, removal of the first item of a body, SetLabels; the same edits update a model built from hclsyntax's parse. Oracle: File.Bytes() parses; every body shows the model's items in order; untouched attributes and block headers keep their tokens; set attributes read back as the value / traversal / tokens given; labels are the model's; comments outside removed or replaced regions are all still there in order and no comment appears. Non-trivial: heredoc, comment or template in the file, or >=2 edits; distinct = (origin, heredoc, comment, template, #edits<=3, first two op kinds)",
+		Rule: "a generated source file (as in C20a) and 1-5 edits, each on the root body or a nested body reached through 0-2 block indices: SetAttributeValue (primitive/list/map/set/any values, arbitrary Unicode strings, numbers at and beyond the int64/uint64 boundaries, huge, tiny, non-terminating fractions, -0, also nested), SetAttributeTraversal (incl. such numbers as index keys), SetAttributeRaw, RemoveAttribute (existing or missing), AppendNewBlock (0-2 labels), RemoveBlock, removal of the first item of a body, SetLabels; the same edits update a model built from hclsyntax's parse. Oracle: File.Bytes() parses; every body shows the model's items in order; untouched attributes and block headers keep their tokens; set attributes read back as the value / traversal / tokens given; labels are the model's; comments outside removed or replaced regions are all still there in order and no comment appears. Non-trivial: heredoc, comment or template in the file, or >=2 edits; distinct = (origin, heredoc, comment, template, #edits<=3, first two op kinds)",
 		Gen:  genB, Check: checkB, Classify: classifyB,
 		Assumptions: []string{
 			"hclsyntax's parse of the source and of the output is the trusted observer of structure",
